@@ -23,7 +23,7 @@ var profC05 = &hist.Profile{
 	Prelude: func(t *rapid.T, g *hist.Gen) {
 		g.R.Step(hist.Op{K: hist.OpCreateTopic, T: "t0"})
 		g.R.Step(hist.Op{K: hist.OpCreateTopic, T: "t1"})
-		cfg := g.GenCfg("s0")
+		cfg := g.GenCfg("t0")
 		cfg.Ordered = true
 		g.R.Step(hist.Op{K: hist.OpCreateSub, S: "s0", T: "t0", Cfg: &cfg})
 	},
@@ -42,5 +42,6 @@ func TestC05(t *testing.T) {
 	defer closeSUT()
 	sp := e1Spec{prop: "C05", profile: profC05, armed: []string{"C05", "C01"}, drain: true,
 		nontrivial: func(r *hist.Runner) bool { return r.M.C["nt/blocked-successor-with-other-key-between"] > 0 }}
+	runKnownCanaries(t, "C05")
 	rapid.Check(t, func(rt *rapid.T) { runE1(rt, s, sp) })
 }
